@@ -166,6 +166,11 @@ type Contract struct {
 	Requires  []*Clause
 	Ensures   []*Clause
 	Maintains []string  // global invariants re-established on exit
+	MaintainsScope map[string][]string // optional property scope of a maintains clause
+	Reveal    []string  // opaque spec functions whose definition is used here
+	Conceal   []string  // spec functions whose definition is NOT used in this contract\'s queries
+	InlineLoops map[string]map[int]*LoopSpec // invariants supplied by this contract for loops of inlined callees ("loop callee.N: ...")
+	Uses      []string  // pure lemmas (proved separately) whose statements are assumed here
 	PureCalls bool      // every call through a function value in this function is pure and deterministic
 	PureFns   []string  // function-typed parameters whose calls are pure and deterministic (T6)
 	Defines   *Expr     // result of this pure, deterministic function is denoted by this spec application
@@ -188,6 +193,7 @@ type LevelSpec struct {
 }
 
 type SpecFunc struct {
+	Opaque  bool // definition used only where revealed
 	Name    string
 	Params  []Param
 	Ret     *TypeExpr
@@ -207,6 +213,7 @@ type Axiom struct {
 }
 
 type TypeInv struct {
+	Props   []string // scoped to these properties (empty: always active)
 	Type    *TypeExpr
 	E       *Expr
 	PkgName string
@@ -963,7 +970,7 @@ var clauseKeywords = map[string]bool{
 	"maypanic": true, "assigns": true, "loop": true, "inline": true, "trusted": true,
 	"pure": true, "type": true, "spec": true, "unfold": true, "axiom": true, "extern": true,
 	"iface": true, "lemma": true, "let": true, "assert": true, "assume": true, "level": true,
-	"package": true, "nobody": true, "call": true, "defines": true, "global": true, "maintains": true, "purefn": true, "purecalls": true, "import": true,
+	"package": true, "nobody": true, "call": true, "defines": true, "global": true, "maintains": true, "purefn": true, "purecalls": true, "import": true, "opaque": true, "reveal": true, "uses": true, "conceal": true,
 }
 
 type rawClause struct {
@@ -1137,6 +1144,44 @@ func ParseSpecText(text, path string, goFile bool) (*SpecFile, error) {
 			}
 		case "maintains":
 			cur.Maintains = append(cur.Maintains, strings.Fields(rc.text)...)
+			if rc.tag != "" {
+				if cur.MaintainsScope == nil {
+					cur.MaintainsScope = map[string][]string{}
+				}
+				for _, n := range strings.Fields(rc.text) {
+					for _, p := range strings.Split(rc.tag, ",") {
+						cur.MaintainsScope[n] = append(cur.MaintainsScope[n], strings.TrimSpace(p))
+					}
+				}
+			}
+		case "conceal":
+			if cur == nil {
+				return nil, fmt.Errorf("%s:%d: conceal outside contract", path, rc.line)
+			}
+			cur.Conceal = append(cur.Conceal, strings.Fields(rc.text)...)
+		case "uses":
+			if cur == nil {
+				return nil, fmt.Errorf("%s:%d: uses outside contract", path, rc.line)
+			}
+			cur.Uses = append(cur.Uses, strings.Fields(rc.text)...)
+		case "reveal":
+			if cur == nil {
+				return nil, fmt.Errorf("%s:%d: reveal outside contract", path, rc.line)
+			}
+			cur.Reveal = append(cur.Reveal, strings.Fields(rc.text)...)
+		case "opaque":
+			for _, n := range strings.Fields(rc.text) {
+				found := false
+				for _, g := range sf.Funcs {
+					if g.Name == n {
+						g.Opaque = true
+						found = true
+					}
+				}
+				if !found {
+					return nil, fmt.Errorf("%s:%d: opaque: unknown spec func %s (declare it earlier in the same file)", path, rc.line, n)
+				}
+			}
 		case "purecalls":
 			cur.PureCalls = true
 		case "purefn":
@@ -1191,14 +1236,35 @@ func ParseSpecText(text, path string, goFile bool) (*SpecFile, error) {
 			if j < 0 {
 				return nil, fmt.Errorf("%s:%d: loop clause needs 'loop N: ...'", path, rc.line)
 			}
-			n, err := strconv.Atoi(strings.TrimSpace(txt[:j]))
+			head := strings.TrimSpace(txt[:j])
+			inlineOf := ""
+			if d := strings.LastIndex(head, "."); d > 0 {
+				inlineOf = head[:d]
+				head = head[d+1:]
+			}
+			n, err := strconv.Atoi(head)
 			if err != nil {
 				return nil, fmt.Errorf("%s:%d: bad loop ordinal", path, rc.line)
 			}
-			ls := cur.Loops[n]
-			if ls == nil {
-				ls = &LoopSpec{Ord: n}
-				cur.Loops[n] = ls
+			var ls *LoopSpec
+			if inlineOf != "" {
+				if cur.InlineLoops == nil {
+					cur.InlineLoops = map[string]map[int]*LoopSpec{}
+				}
+				if cur.InlineLoops[inlineOf] == nil {
+					cur.InlineLoops[inlineOf] = map[int]*LoopSpec{}
+				}
+				ls = cur.InlineLoops[inlineOf][n]
+				if ls == nil {
+					ls = &LoopSpec{Ord: n}
+					cur.InlineLoops[inlineOf][n] = ls
+				}
+			} else {
+				ls = cur.Loops[n]
+				if ls == nil {
+					ls = &LoopSpec{Ord: n}
+					cur.Loops[n] = ls
+				}
 			}
 			rest := strings.TrimSpace(txt[j+1:])
 			// a loop clause may contain several "invariant" parts on continuation lines
@@ -1207,11 +1273,20 @@ func ParseSpecText(text, path string, goFile bool) (*SpecFile, error) {
 				switch {
 				case strings.HasPrefix(p, "invariant"):
 					et := strings.TrimSpace(strings.TrimPrefix(p, "invariant"))
+					var scope []string
+					if strings.HasPrefix(et, "[") {
+						if k := strings.Index(et, "]"); k > 0 {
+							for _, pp := range strings.Split(et[1:k], ",") {
+								scope = append(scope, strings.TrimSpace(pp))
+							}
+							et = strings.TrimSpace(et[k+1:])
+						}
+					}
 					e, err := parseExprString(et, path, rc.line)
 					if err != nil {
 						return nil, err
 					}
-					ls.Invs = append(ls.Invs, &Clause{Kind: "invariant", E: e, Text: strings.Join(strings.Fields(et), " "), Ord: len(ls.Invs) + 1, Line: rc.line, File: path})
+					ls.Invs = append(ls.Invs, &Clause{Kind: "invariant", E: e, Text: strings.Join(strings.Fields(et), " "), Ord: len(ls.Invs) + 1, Line: rc.line, File: path, Props: scope})
 				case strings.HasPrefix(p, "ghost"):
 					g, err := parseGhost(strings.TrimSpace(strings.TrimPrefix(p, "ghost")), path, rc.line)
 					if err != nil {
@@ -1237,11 +1312,21 @@ func ParseSpecText(text, path string, goFile bool) (*SpecFile, error) {
 			if err != nil {
 				return nil, err
 			}
-			e, err := parseExprString(txt[j+len("invariant"):], path, rc.line)
+			body := txt[j+len("invariant"):]
+			var tiProps []string
+			if tb := strings.TrimSpace(body); strings.HasPrefix(tb, "[") {
+				if k := strings.Index(tb, "]"); k > 0 {
+					for _, pp := range strings.Split(tb[1:k], ",") {
+						tiProps = append(tiProps, strings.TrimSpace(pp))
+					}
+					body = tb[k+1:]
+				}
+			}
+			e, err := parseExprString(body, path, rc.line)
 			if err != nil {
 				return nil, err
 			}
-			sf.TypeInvs = append(sf.TypeInvs, &TypeInv{Type: ty, E: e, PkgName: sf.PkgName, File: path, Line: rc.line, Text: strings.Join(strings.Fields(txt[j+len("invariant"):]), " ")})
+			sf.TypeInvs = append(sf.TypeInvs, &TypeInv{Props: tiProps, Type: ty, E: e, PkgName: sf.PkgName, File: path, Line: rc.line, Text: strings.Join(strings.Fields(body), " ")})
 			cur = nil
 		case "spec":
 			f, err := parseSpecFunc(rc, path)
